@@ -7,7 +7,9 @@ import itertools, random
 
 OPERANDS = ["a", "'lit'", "42", "f()", "o.p", "o[k]", "(a)", "('x' + 'y')", "'x' + 'y'", "[a, b]", "[[x, y], z]",
             "undefined", "null", "a + b", "`t${a}`", "a?.b", "this", "(a, b)", "o.m(a)", "a.trim()", "i++",
-            "`plain`", "/re/", "x = y", "(() => a)", "!a", "a ? b : 'c'", "new F(a)", "o?.[k]", "f?.()"]
+            "`plain`", "/re/", "x = y", "(() => a)", "!a", "a ? b : 'c'", "new F(a)", "o?.[k]", "f?.()",
+            # identifiers and literals that end in a multi-byte character (the last byte of the operation is not a character boundary)
+            "\u00e9", "x\u4727", "o.\u00e9", "'\u00e9'", "f\u00e9()", "`t${\u00e9}`", "1n", "/re/\u0075"]
 ARG_LISTS = ["", "a", "'lit'", "a, b", "f(), b", "...r", "a, ...r", "...r, ...q", "[a, b]", "[[x, y], z]", "a, , b".replace(", ,", ", undefined,"),
              "'l1', 'l2'", "a + b, `t${x}`", "o.p, o[k]", "...'lit'", "(a, b)", "x = y", "a?.b", "() => a + b"]
 ARRAYS = ["[a, b]", "[]", "[a]", "['l1', 'l2']", "[a, , b]", "[...r]", "[a, ...r]", "[[x, y], z]", "[f(), g()]", "[, a]", "arr", "f()", "...r", "[a + b]", "['x' + 'y', a]"]
